@@ -2,6 +2,7 @@ import Sgz.Model.Reader
 import Sgz.Model.Version
 import Sgz.Model.Config
 import Sgz.Model.Pipeline
+import Sgz.Model.Writer
 /-!
 Line-protocol driver over the executable model (`Sgz/Model`, Mathlib-free).  One request per line, one answer per
 line.  The Python harness sends the same request to the real implementation and diffs canonical answers.
@@ -135,12 +136,38 @@ def handlePipe (ws : List String) : String :=
     | _, _ => "bad-op"
   | _ => "bad-op"
 
+/-- `writer n0 n1 n2 b0 b1 b2 u`: per unit of the data section (file order) the digest of the 64 (16) source values -/
+def handleWriter (ws : List String) : String :=
+  match ints ws with
+  | some gs =>
+    match mkGeo gs with
+    | some g =>
+      if g.b0 == 1 then joinNat ((Writer.cells2d g).map fun c => Writer.digest (Writer.cellValues2d g c))
+      else joinNat ((Writer.cells g).map fun c => Writer.digest (Writer.cellValues g c))
+    | none => "bad-op"
+  | none => "bad-op"
+
+/-- `hashfeed n0 n1 n2 b0 b1 b2 u`: number of samples fed to the hash, and a digest of their linear indices -/
+def handleHashFeed (ws : List String) : String :=
+  match ints ws with
+  | some gs =>
+    match mkGeo gs with
+    | some g =>
+      let vs := if g.b0 == 1 then (Writer.hashFeed2d g).map fun s => s.1 * g.n2 + s.2
+                else (Writer.hashFeed g).map (Writer.lin g)
+      let h := vs.foldl (fun acc v => (acc * 31 + v + 1) % 2147483647) 7
+      s!"{vs.length} {h}"
+    | none => "bad-op"
+  | none => "bad-op"
+
 def handle (line : String) : String :=
   match (line.trimAscii.toString.splitOn " ").filter (· ≠ "") with
   | "read" :: rest => handleRead rest
   | "ver" :: rest => handleVer rest
   | "cfg" :: rest => handleCfg rest
   | "pipe" :: rest => handlePipe rest
+  | "writer" :: rest => handleWriter rest
+  | "hashfeed" :: rest => handleHashFeed rest
   | ["ping"] => "pong"
   | _ => "bad-op"
 
